@@ -270,6 +270,23 @@ func c03Run(r *runCtx, id string, f []string) {
 
 // ---- generator -----------------------------------------------------------------------------
 
+// c03Doubling: sources whose size is linear in n but whose meaning doubles with every line.
+func c03Doubling(n int) []string {
+	var a, b, c strings.Builder
+	a.WriteString("const C0 /aaaaaaaaaa/\n")
+	b.WriteString("const C0 /(a|b)/\n")
+	c.WriteString("counter c\ndef d0 {\n  /x/ {\n    next\n  }\n}\n")
+	for i := 1; i <= n; i++ {
+		fmt.Fprintf(&a, "const C%d // + C%d + C%d\n", i, i-1, i-1)
+		fmt.Fprintf(&b, "const C%d /x/ + C%d + /y/ + C%d\n", i, i-1, i-1)
+		fmt.Fprintf(&c, "def d%d {\n  @d%d {\n    @d%d {\n      next\n    }\n  }\n}\n", i, i-1, i-1)
+	}
+	fmt.Fprintf(&a, "counter c\nC%d {\n  c++\n}\n", n)
+	fmt.Fprintf(&b, "counter c\n/^/ + C%d {\n  c++\n}\n", n)
+	fmt.Fprintf(&c, "@d%d {\n  c++\n}\n", n)
+	return []string{a.String(), b.String(), c.String()}
+}
+
 var c03Hand = []string{
 	// zero divisors of every spelling and type, with constant and non-constant dividends, alone and
 	// nested in larger expressions
@@ -468,6 +485,11 @@ func init() {
 				}
 			}
 			srcs = append(srcs, corpus...)
+			// short sources whose expansion doubles with every line: pattern constants built from
+			// constants, decorators that use a decorator twice
+			for _, n := range []int{3, 9, 12, 20, 40, 200} {
+				srcs = append(srcs, c03Doubling(n)...)
+			}
 			depths := []int{1, 10, 98, 99, 100, 101, 102, 250, 1025}
 			nmut, nsoup, nrand, nprog := 600, 150, 150, 60
 			if g.thorough() {
